@@ -493,3 +493,23 @@ Theorem c05_code_call_try_response : forall c input,
   = lift_try (call_try_response c input).
 Proof. exact gen_call_try_response_eq. Qed.
 Print Assumptions c05_code_call_try_response.
+
+(* ================================================================== src/parser.rs itself (translated from the source) *)
+(** The bridge from httparse to the http types -- the error mapping (too many headers kept apart), Complete / Partial, the version and
+    status conversions, which stored fields are copied into the builder (all of them; in the partial parser up to the first field
+    with an empty name or value) and what is returned -- is translated on every run (theories/Gen2.v, [gen_try_parse_response],
+    [gen_try_parse_partial_response]; httparse's outcome and the fields it filled in are values, the http builder is the model's
+    reading of it) and proved EQUAL to the model's bridge on whatever the parser model returns (proofs/Gen2_equiv_parser.v). *)
+From Hoot.proofs Require Import Gen2_equiv_parser.
+Theorem c05_code_try_parse_response : forall slots input,
+  gen_try_parse_response (hp_of (fst (parse_response slots input))) (hv_version (snd (parse_response slots input)))
+    (hv_code (snd (parse_response slots input))) (hv_headers (snd (parse_response slots input)))
+  = try_parse_response slots input.
+Proof. exact gen_try_parse_response_eq. Qed.
+Print Assumptions c05_code_try_parse_response.
+Theorem c05_code_try_parse_partial_response : forall slots input,
+  gen_try_parse_partial_response (hp_of (fst (parse_response slots input))) (hv_version (snd (parse_response slots input)))
+    (hv_code (snd (parse_response slots input))) (hv_headers (snd (parse_response slots input)))
+  = try_parse_partial_response slots input.
+Proof. exact gen_try_parse_partial_response_eq. Qed.
+Print Assumptions c05_code_try_parse_partial_response.
